@@ -163,7 +163,7 @@ impl CoinSelection for VectorSelector {
             if candidate.assets.contains_some(&pending) {
                 matched.insert(candidate.clone());
                 let to_include = candidate.assets.clone();
-                pending = pending - to_include;
+                pending = pending.saturating_sub(to_include);
             }
 
             if pending.is_empty_or_negative() {
